@@ -141,8 +141,10 @@ func illCondPlans([]int) []plan {
 // ---- 6x6 block triangular matrices ------------------------------------------------------
 
 // 2x2 diagonal blocks: symmetric with real eigenvalues ±1, non-symmetric with real
-// eigenvalues 2,-1, rotation (±i), complex pair 1±i·sqrt(2).
-var blocks2 = [][4]int{{0, 1, 1, 0}, {1, 2, 1, 0}, {0, -1, 1, 0}, {1, -2, 1, 1}}
+// eigenvalues 2,-1, rotation (±i), complex pair 1±i·sqrt(2), and two blocks with a double
+// real eigenvalue and a non-zero sub-diagonal entry (discriminant exactly 0: transposed
+// Jordan block, eigenvalue 1 twice), which a real Schur form has to triangularise.
+var blocks2 = [][4]int{{0, 1, 1, 0}, {1, 2, 1, 0}, {0, -1, 1, 0}, {1, -2, 1, 1}, {1, 0, 1, 1}, {2, 1, -1, 0}}
 
 // compositions of 6 into parts 1 and 2 (bit j of the mask: part j is a 2x2 block)
 var comps6 = func() [][]int {
